@@ -832,7 +832,7 @@ fn gen_case(batch: &str, index: u64, seed: u64) -> Case {
             }
             Case { model: "kernel".into(), x, y: vec![], kernel, c: 1.0, tol: 1e-3, epoch: 1, eps: 0.0, f32m, queries: vec![], budget: 0, tape: TapeSpec::prng(tape_seed), kind: "kernel-closed-form".into() }
         }
-        "svr-hard" => {
+        "svr-hard" | "svr-hard-tight" => {
             // the slowly converging corner the fast batch leaves out: large C times large kernel values
             // (linear / quadratic kernels on features in [-3, 3], C = 100, tol down to 1e-4, n up to 60)
             let n = pr.usize_in(20, 60);
@@ -846,7 +846,7 @@ fn gen_case(batch: &str, index: u64, seed: u64) -> Case {
                 _ => KSpec { kind: "rbf".into(), gamma: *pr.pick(&[0.1, 0.5]), degree: 0.0, coef0: 0.0 },
             };
             let queries = (0..3).map(|_| (0..p).map(|_| r.range(-3.0, 3.0)).collect()).collect();
-            Case { model: "svr".into(), x, y, kernel, c: 100.0, tol: *pr.pick(&[1e-3, 1e-4]), epoch: 0, eps: *pr.pick(&[0.0, 0.1]), f32m: false, queries, budget: 4_000_000_000, tape: TapeSpec::prng(tape_seed), kind: "svr-hard".into() }
+            Case { model: "svr".into(), x, y, kernel, c: 100.0, tol: if batch == "svr-hard-tight" { 1e-4 } else { 1e-3 }, epoch: 0, eps: *pr.pick(&[0.0, 0.1]), f32m: false, queries, budget: 4_000_000_000, tape: TapeSpec::prng(tape_seed), kind: "svr-hard".into() }
         }
         "svr" | "svr-f32" => {
             let n = pr.usize_in(4, 40);
@@ -929,12 +929,13 @@ impl Property for C10 {
         let q = tier == Tier::Quick;
         vec![
             Batch { name: "svc-exhaustive-small", count: exhaustive_small().len() as u64, simulated: true, exhaustive: true, note: "n=3,4: every (initialize order, epoch order) pair; n=5: every initialize order x 3 epoch orders; 3 data sets per n (separable, overlapping, conflicting duplicate); epoch=1" },
-            Batch { name: "svc-prng", count: if q { 24_000 } else { 3_000_000 }, simulated: true, exhaustive: false, note: "visiting orders from the seeded PRNG tape; four kernels; C 0.1..100; 1..4 epochs" },
-            Batch { name: "svc-extreme", count: if q { 8_000 } else { 800_000 }, simulated: true, exhaustive: false, note: "extreme words injected at random draw sites of the shuffles" },
-            Batch { name: "svc-forced", count: if q { 8_000 } else { 800_000 }, simulated: true, exhaustive: false, note: "forced identity / reverse / one-class-first / rotated orders for every pass" },
-            Batch { name: "svc-f32", count: if q { 4_000 } else { 400_000 }, simulated: true, exhaustive: false, note: "single precision, tolerances scaled" },
-            Batch { name: "svr", count: if q { 6_000 } else { 600_000 }, simulated: false, exhaustive: false, note: "schedule-free ride-along: SVR draws nothing; linear / RBF / polynomial degree<=2, C<=10, n<=40; termination judged by state-cycle detection over the tick hook's state digests (step budget only as fallback)" },
-            Batch { name: "svr-hard", count: if q { 48 } else { 1_500 }, simulated: false, exhaustive: false, note: "schedule-free: the slowly converging corner (C = 100, linear / quadratic / RBF kernels on features in [-3,3], n 20..60, tol 1e-3..1e-4) with a 4e9-iteration fallback budget; few runs because each takes up to seconds" },
+            Batch { name: "svc-prng", count: if q { 48_000 } else { 3_000_000 }, simulated: true, exhaustive: false, note: "visiting orders from the seeded PRNG tape; four kernels; C 0.1..100; 1..4 epochs" },
+            Batch { name: "svc-extreme", count: if q { 16_000 } else { 800_000 }, simulated: true, exhaustive: false, note: "extreme words injected at random draw sites of the shuffles" },
+            Batch { name: "svc-forced", count: if q { 16_000 } else { 800_000 }, simulated: true, exhaustive: false, note: "forced identity / reverse / one-class-first / rotated orders for every pass" },
+            Batch { name: "svc-f32", count: if q { 8_000 } else { 400_000 }, simulated: true, exhaustive: false, note: "single precision, tolerances scaled" },
+            Batch { name: "svr", count: if q { 12_000 } else { 600_000 }, simulated: false, exhaustive: false, note: "schedule-free ride-along: SVR draws nothing; linear / RBF / polynomial degree<=2, C<=10, n<=40; termination judged by state-cycle detection over the tick hook's state digests (step budget only as fallback)" },
+            Batch { name: "svr-hard", count: if q { 48 } else { 1_500 }, simulated: false, exhaustive: false, note: "schedule-free: the slowly converging corner (C = 100, linear / quadratic / RBF kernels on features in [-3,3], n 20..60, tol 1e-3) with a 4e9-iteration fallback budget; few runs because each takes up to seconds" },
+            Batch { name: "svr-hard-tight", count: if q { 0 } else { 600 }, simulated: false, exhaustive: false, note: "same corner at tol 1e-4 (up to 2.2e7 iterations per fit): thorough tier only" },
             Batch { name: "svr-f32", count: if q { 1_000 } else { 100_000 }, simulated: false, exhaustive: false, note: "schedule-free, single precision" },
             Batch { name: "kernels", count: if q { 6_000 } else { 600_000 }, simulated: false, exhaustive: false, note: "schedule-free: closed forms, symmetry, PSD of linear/RBF Gram matrices" },
             Batch { name: "kernels-f32", count: if q { 2_000 } else { 200_000 }, simulated: false, exhaustive: false, note: "schedule-free, single precision" },
